@@ -734,6 +734,15 @@ def _run(code, filename):
     return out.getvalue()[:5000], (exc, glob), events, timed_out
 
 
+def _dedup_lines(events):
+    out = []
+    for e in events:
+        if e[0] == "line" and out and out[-1] == e:
+            continue
+        out.append(e)
+    return out
+
+
 def _safe_repr(x, depth=0):
     """repr that does not depend on addresses or on set iteration order"""
     import re
@@ -792,7 +801,19 @@ def _c05_exec_body(v, code, n):
         i = 0
         while i < min(len(e1), len(e2)) and e1[i] == e2[i]:
             i += 1
-        v.violate("behaviour", "trace_events", "trace events differ at #%d: %r vs %r" % (i, e1[i:i + 2], e2[i:i + 2]))
+        sub = "trace_events"
+        if not AT310 and _dedup_lines(e1) == _dedup_lines(e2) and len(e1) > len(e2):
+            # <=3.9: zero-width lnotab entries (a +k/-k pair at one address, left by the peephole
+            # optimizer) open a new line window, so the tracer reports the SAME line twice in a row;
+            # normalization drops those entries.  Classified only if that is the whole difference
+            # and the original really has such entries.
+            import collections
+            feats = collections.Counter()
+            for _p, c in refs.walk_codes(code):
+                refs.code_features(c, feats)
+            if feats.get("zero_width_entry"):
+                sub = "trace_events:repeated_line_event_from_zero_width_entry"
+        v.violate("behaviour", sub, "trace events differ at #%d: %r vs %r" % (i, e1[i:i + 2], e2[i:i + 2]))
     nline = sum(1 for e in e1 if e[0] == "line")
     ncodes = len(set(e[1] for e in e1))
     v.features["executed_programs"] += 1
